@@ -18,6 +18,7 @@ means a check, a step or an operand is gone:
   new   T::V              a value of workspace struct / enum variant T::V is built
   fld   T::V.f <form>     ... with field f initialised from this form
   set   .f <form>         a field named f is assigned a value of this form
+  grd   X <= [tests]      the rejection test / procedure call X is made under exactly these non-rejecting tests (each with the side taken)
 
 New atoms (added checks, added steps, new functions) are never an alarm. A function of the reference that no longer exists is looked for in
 its former callers (inlined) and a function that is new is attributed to its callers (extracted), with parameter leaves erased."""
@@ -84,6 +85,10 @@ EFFECT_STD = re.compile(
     r"::(sync_all|sync_data|set_len|write_all|seek|flush|read_exact|rename|remove_file|create|open)$|"
     r"Atomic\w*::(load|store|fetch_add|fetch_sub|fetch_update|swap|compare_exchange)$|::(send|try_send|blocking_send)$|"
     r"::(from_slice|from_compatible_slice|new_unchecked|from_slice_should_be_ok)$)")
+
+
+MUTATOR_STD = re.compile(r"::(insert|remove|push|push_back|push_front|pop|pop_back|pop_front|extend|extend_from_slice|clear|retain|truncate|drain|split_off|swap_remove|"
+                         r"sync_all|sync_data|set_len|write_all|seek|flush|rename|remove_file|send|try_send|blocking_send|store|fetch_add|fetch_sub|swap)$")
 
 
 def atom_call_name(c, S):
@@ -174,7 +179,7 @@ def atoms(bodies, S=None):
 
 
 def _atoms(bodies, S):
-    out = {k: set() for k in ("call", "recv", "arg", "dec", "must", "mustq", "mustcall", "new", "fld", "set")}
+    out = {k: set() for k in ("call", "recv", "arg", "dec", "must", "mustq", "mustcall", "new", "fld", "set", "grd")}
     for b in bodies:
         try:
             logb = FP.log_region(b)
@@ -227,20 +232,21 @@ def _atoms(bodies, S):
             if succ_rets and not (b.reachable(0, avoid=(err - {c.bb}) | {_loop_anchor(b, c.bb, anchors)}) & succ_rets):
                 out["mustcall"].add(name)
         # ---- decisions
+        guards, targets = [], []       # untagged informative decisions (sw, reach-if-true, reach-if-false, core); (block, id) of rejections / procedures
         try:
             seen = set()
             for h, site in K.decision_sites(b, ignore=FP.IGNORE, matches=True):
                 if site.bb in logb:
                     continue
                 hc = FP.canon(h)
-                if hc[0] == "match" and hc[1] and hc[1][0] in ("Option::None", "Result::Err"):
-                    continue      # how an Option / Result is taken apart (`?`, let-else, if-let, map_or ..) is plumbing; the steps and rejections it
-                                  # guards are atoms of their own (call, new, must, mustq)
+                # how an Option / Result is taken apart (`?`, let-else, if-let, map_or ..) is plumbing: not a `dec` atom (the steps and rejections it
+                # guards are atoms of their own); it can still be a *guard* when it tests the result of a workspace call and neither side rejects
+                plumbing = hc[0] == "match" and hc[1] and hc[1][0] in ("Option::None", "Result::Err")
                 if hc[0] == "if":
                     core = _j([hc[0], [hc[1][0]] + list(clean(hc[1][1:])) if hc[1] else [], clean(hc[2])])
                 else:
                     core = _j([hc[0], clean(hc[1]), clean(hc[2])])
-                if not INFORMATIVE.search(core):
+                if not INFORMATIVE.search(core if not plumbing else _j(list(clean(hc[2])))):
                     continue      # a bool out of plumbing alone (`x.is_empty()`, `o.unwrap_or(false)`): nothing says what is tested
                 tag = ""
                 sw = None
@@ -259,12 +265,57 @@ def _atoms(bodies, S):
                 if (site.bb, a) in seen:
                     continue
                 seen.add((site.bb, a))
-                out["dec"].add(a)
-                is_try = hc[0] == "match" and hc[1] and hc[1][0] in ("Result::Err", "Option::None")
-                if tag and not is_try and sw is not None and succ_rets and not (b.reachable(0, avoid=(err - {sw}) | {_loop_anchor(b, sw, anchors)}) & succ_rets):
+                if not plumbing:
+                    out["dec"].add(a)
+                if sw is None and not plumbing and hc[0] in ("lt", "eq") and b.kind not in ("Fn", "AssocFn"):
+                    targets.append((site.bb, a + " =ret"))       # the verdict a predicate closure returns
+                if sw is not None:
+                    if tag and not plumbing:
+                        targets.append((sw, a))
+                    elif hc[0] != "cmp~":
+                        try:
+                            rt, rf = set(), set()
+                            for t in tts:
+                                if t is not None and t != sw:
+                                    rt |= b.reachable(t, avoid={sw})
+                            for t in fts:
+                                if t is not None and t != sw:
+                                    rf |= b.reachable(t, avoid={sw})
+                            guards.append((sw, rt, rf, core, hc[0] == "match"))
+                        except Exception:
+                            pass
+                if tag and not plumbing and sw is not None and succ_rets and not (b.reachable(0, avoid=(err - {sw}) | {_loop_anchor(b, sw, anchors)}) & succ_rets):
                     out["must"].add(a)
         except Exception as e:
             out["dec"].add("<analysis-error:%s>" % type(e).__name__)
+        # ---- guard sets: under which (non-rejecting) tests a rejection test is made / a procedure is called. Adding `&& fast_path` in front of a
+        # rejection, or `if cond { continue }` in front of a write, changes the set; nesting vs early return, `&&` vs nested `if` do not.
+        try:
+            locs = b.rec.get("locals") or []
+            for c in b.calls:
+                if c.bb in logb:
+                    continue
+                name = atom_call_name(c, S)
+                if not name:
+                    continue
+                dty = str(locs[c.dest[0]]) if c.dest and c.dest[0] < len(locs) else ""
+                is_ws = bool(re.match(r"^<?ckb_", c.callee) or (c.res or "").startswith("ckb_"))
+                proc = (dty in ("()", "!") or re.match(r"^(core::result::|std::result::)?Result<\(\)", dty)) if is_ws else bool(MUTATOR_STD.search(c.callee) or (c.res and MUTATOR_STD.search(c.res)))
+                if proc:
+                    targets.append((c.bb, name))
+            for blk_id, tid in targets:
+                gs = set()
+                for sw, rt, rf, core, is_match in guards:
+                    if sw == blk_id or not b.dominates(sw, blk_id):
+                        continue
+                    it, if_ = blk_id in rt, blk_id in rf
+                    if it and not if_:
+                        gs.add(core + " :T")
+                    elif if_ and not it and not is_match:
+                        gs.add(core + " :F")
+                out["grd"].add("%s <= %s" % (tid, json.dumps(sorted(gs))))
+        except Exception:
+            pass
         # ---- values built and fields assigned
         for bi, blk in enumerate(b.blocks):
             if bi in logb:
